@@ -33,7 +33,14 @@ type c25Scenario struct {
 	NoBEAST bool        `json:"no_beast,omitempty"`
 	NoDyn   bool        `json:"no_dyn,omitempty"`
 	Faults  []wireFault `json:"faults,omitempty"`
+	Reframe *c25Reframe `json:"reframe,omitempty"` // TLS 1.3, fault-free runs: a peer that frames its records differently (legal per RFC 8446)
 	Tape    []int       `json:"tape,omitempty"`
+}
+
+type c25Reframe struct {
+	Dirs       int `json:"dirs"` // bit 0: client→server, bit 1: server→client
+	Rate       int `json:"rate"`
+	KeyUpdates int `json:"key_updates"`
 }
 
 var c25Sizes = []int{0, 1, 2, 3, 7, 8, 15, 16, 17, 31, 32, 33, 100, 255, 256, 1000, 1207, 1208, 1209, 1400, 4096, 16383, 16384, 16385, 20000, 32768, 32769, 50000, 70000}
@@ -114,6 +121,9 @@ func genC25(seed uint64, tier string) any {
 	if sc.Net.Window > 0 && sc.Net.Window < 1500 && tot > 6000 {
 		sc.Net.Window = 4096 // a tiny send window with a large stream only multiplies scheduler steps
 	}
+	if !faulty && sc.Version == vTLS13 && r.Chance(2, 3) {
+		sc.Reframe = &c25Reframe{Dirs: 1 + r.Intn(3), Rate: 1 + r.Intn(3), KeyUpdates: r.Pick([]int{3, 2, 1})}
+	}
 	if faulty {
 		nf := r.Pick([]int{0, 6, 2, 1})
 		kinds := []string{"flip", "flip", "flip", "drop", "dup", "swap", "replay", "trunc", "insert"}
@@ -141,6 +151,7 @@ type c25Side struct {
 	conn     *tls.Conn
 	net      *kit.Conn
 	filter   *recFilter
+	reframe  *reframe13
 	wrote    []byte // accepted by Write (full writes only counted when err == nil)
 	attempted []byte
 	read     []byte
@@ -165,6 +176,10 @@ func execC25(t *testing.T, scAny any, keepLog bool) *Outcome {
 		ccfg := clientConfig(ecfg, s, run.R.Derive("cli-rand"))
 		cn, sn := s.Pipe("c", "s", sc.Net.params(), sc.Net.params())
 		sides := [2]*c25Side{{net: cn}, {net: sn}}
+		var keylog bytes.Buffer
+		if sc.Reframe != nil {
+			ccfg.KeyLogWriter, scfg.KeyLogWriter = &keylog, &keylog
+		}
 		for d := 0; d < 2; d++ {
 			f := &recFilter{}
 			for _, wf := range sc.Faults {
@@ -174,6 +189,12 @@ func execC25(t *testing.T, scAny any, keepLog bool) *Outcome {
 			}
 			sides[d].filter = f
 			sides[d].net.SetFilter(f)
+			if sc.Reframe != nil && sc.Reframe.Dirs&(1<<uint(d)) != 0 {
+				rf := &reframe13{Suite: sc.Suite, Label: []string{"CLIENT_TRAFFIC_SECRET_0", "SERVER_TRAFFIC_SECRET_0"}[d], KeyLog: &keylog,
+					Rng: kit.NewRng(sc.Seed ^ uint64(0x13f0+d)), Rate: sc.Reframe.Rate, KeyUpdates: sc.Reframe.KeyUpdates}
+				sides[d].reframe = rf
+				sides[d].net.SetFilter(chainFilter{rf, f})
+			}
 		}
 		sides[0].conn = tls.Client(cn, ccfg)
 		sides[1].conn = tls.Server(sn, scfg)
@@ -274,6 +295,16 @@ func c25Check(sc *c25Scenario, sides [2]*c25Side, total [2]int, o *Outcome) *Fai
 		return Failf("c25.handshake", "negotiated parameters differ from the only ones offered", "got %04x/%04x want %04x/%04x", st.Version, st.CipherSuite, sc.Version, sc.Suite)
 	}
 	o.count("probe.stream."+tag, 1)
+	for d := 0; d < 2; d++ {
+		if rf := sides[d].reframe; rf != nil {
+			for k, n := range rf.Fired {
+				o.count(k, n)
+			}
+			if rf.Lost {
+				return Failf("c25.reframe.sync", "a record of the application epoch does not open under the RFC 8446 key schedule", "%s dir %d", tag, d)
+			}
+		}
+	}
 	anyFired := false
 	for d := 0; d < 2; d++ {
 		snd, rcv := sides[d], sides[1-d]
@@ -434,6 +465,18 @@ func shrinkC25(scAny any) []any {
 		c.ReadMax = 32768
 		out = append(out, c)
 	}
+	if sc.Reframe != nil {
+		c := cp()
+		c.Reframe = nil
+		out = append(out, c)
+		if sc.Reframe.KeyUpdates > 0 {
+			c := cp()
+			r := *sc.Reframe
+			r.KeyUpdates = 0
+			c.Reframe = &r
+			out = append(out, c)
+		}
+	}
 	if sc.Tape != nil {
 		c := cp()
 		c.Tape = nil
@@ -450,6 +493,7 @@ func init() {
 		Stub:   []string{"transport (simnet)", "clock", "entropy", "PKI from fixed key pool"},
 		Assume: []string{"a read timeout or EOF after a dropped/truncated tail counts as the receiver returning an error", "for a write that straddles the disturbed record at least one of its bytes is carried by or after that record"},
 		FaultKinds: []string{"fault.flip.hdr_type", "fault.flip.hdr_vers", "fault.flip.hdr_len", "fault.flip.head", "fault.flip.body", "fault.flip.tail", "fault.drop", "fault.dup", "fault.swap", "fault.replay", "fault.trunc", "fault.insert",
+			"reframe.empty_record", "reframe.empty_record_padded", "reframe.padding", "reframe.split", "reframe.key_update_injected", "reframe.key_update_requested",
 			"net.segments", "net.short_read", "net.write_blocked_on_window", "net.read_deadline_expired", "probe.faultfree_complete", "probe.receiver_error_after_fault", "probe.tls10_cbc_split_path"},
 		NotInjected: "no storage or crash-restart exists in a TLS connection; faults before the end of the handshake belong to C32",
 		Gen:         genC25, New: func() any { return &c25Scenario{} }, Exec: execC25, Shrink: shrinkC25,
